@@ -178,6 +178,10 @@ class Model:
             for k in range(1, len(s)):
                 self.prefixes.add(s[:k])
         self.proper_prefixes = sorted(self.prefixes - set(self.table))
+        # documented key-name grammar: up to one each of the modifiers shift / meta / ctrl, then a base key
+        self.bases = {"tab", "enter", "backspace", "esc"}
+        for name in self.table.values():
+            self.bases.add(strip_modifiers(name)[1])
 
     # -- helpers
     def no_known_prefix(self, seq: str) -> bool:
@@ -291,8 +295,16 @@ class Model:
                 if inner.kind in ("printable", "c0", "utf8", "dbcs", "high-narrow"):
                     if inner.data[:1] not in (b"[", b"O"):
                         ev = ["meta " + e]
-                elif inner.kind == "table" and "meta " not in e:
-                    ev = ["meta " + e]
+                elif inner.kind == "table":
+                    # a key carries 'meta' at most once: ESC in front of a key that already is a meta key is
+                    # reported as its own 'esc' key (tests/test_escapes.py: ESC ESC 1 -> 'esc', 'meta 1')
+                    ev = ["meta " + e] if "meta " not in e else ["esc", e]
+                elif inner.kind in ("x10", "sgr", "cpr"):
+                    ev = ["esc", e]  # reports take no modifier from a preceding ESC (test_bug_104)
+                elif inner.kind.startswith("meta-") and isinstance(e, str) and e.startswith("meta "):
+                    ev = ["esc", e]
+            elif inner.events is not None and not inner.garbage and len(inner.events) == 2 and inner.events[0] == "esc":
+                ev = ["esc", *inner.events]  # ESC ESC ... : each further ESC is one more 'esc'
             return Tok([ESC, *inner.data], ev, kind, end_only=inner.end_only, next_lt=inner.next_lt)
         if k == "broken":  # ["broken", class, text-after-ESC, end_only]
             cls, seq, end_only = d[1], d[2], bool(d[3])
@@ -320,6 +332,45 @@ class Model:
                     ok = False
         exp = [e for t in toks for e in t.events] if ok else None
         return data, toks, exp, spans
+
+
+MODIFIERS = ("shift ", "meta ", "ctrl ")
+_PASS = __import__("re").compile(r"<\d+>\Z")
+_MOUSE = __import__("re").compile(r"(shift )?(meta )?(ctrl )?mouse (press|release|drag)\Z")
+
+
+def strip_modifiers(name: str):
+    """-> (list of leading modifiers, base)"""
+    mods = []
+    while True:
+        for m in MODIFIERS:
+            if name.startswith(m) and len(name) > len(m):
+                mods.append(m)
+                name = name[len(m) :]
+                break
+        else:
+            return mods, name
+
+
+def name_problem(ev, bases, mode):
+    """None if ev is a documented event name: [modifiers, each at most once] + base key / single character
+    (two for a double-byte character) / '<n>' pass-through; a report tuple with a documented event string"""
+    if isinstance(ev, tuple):
+        if len(ev) == 3 and ev[0] == "cursor position":
+            return None
+        if len(ev) == 4 and isinstance(ev[0], str) and _MOUSE.match(ev[0]):
+            return None
+        return "unknown-report"
+    if not isinstance(ev, str) or not ev:
+        return "not-a-string"
+    if len(ev) == 1 or (mode == "wide" and len(ev) == 2 and ord(ev[0]) >= 0x80):
+        return None
+    mods, base = strip_modifiers(ev)
+    if len(set(mods)) != len(mods):
+        return "modifier-repeated"
+    if base in bases or len(base) == 1 or _PASS.match(base) or (mode == "wide" and len(base) == 2 and ord(base[0]) >= 0x80):
+        return None
+    return "unknown-base-key"
 
 
 def event_matches(exp, act) -> bool:
